@@ -120,3 +120,231 @@ Section KPoly.
     apply map2_cancel; [rewrite !dft_length; lia|exact F2].
   Qed.
 End KPoly.
+
+(* ------------------------------------------------------------------ the pieces of the arm, on the words *)
+Definition xoff : Fp3 := denX pdiv_offset.
+Lemma offset_ok : canon3 pdiv_offset /\ xoff = (fp_of 0, fp_of 1, fp_of 0).
+Proof.
+  destruct (fo_zero _ _ _ _ bfe_field_ok) as [C0 E0]. destruct (fo_one _ _ _ _ bfe_field_ok) as [C1 E1].
+  cbn [fzero fone bfe_ops k0 k1 fp_field] in *. split; [unfold pdiv_offset, canon3; auto|].
+  unfold xoff, pdiv_offset, denX. rewrite E0, E1. reflexivity.
+Qed.
+Lemma xoff_nonzero : xoff <> k0 K3.
+Proof.
+  rewrite (proj2 offset_ok). intros E. apply f3_proj in E. destruct E as [_ [E _]].
+  apply (f_equal fval) in E. discriminate E.
+Qed.
+
+(* Polynomial<BFE>::scale(offset : XFE) *)
+Lemma scale_go_ext l alpha pw : okb l -> canon3 alpha -> canon3 pw ->
+  okx (scale_go xmul (fun c p => xscale p c) alpha pw l) /\
+  Dx (scale_go xmul (fun c p => xscale p c) alpha pw l) = pcompscale_go K3 (Db3 l) (denX alpha) (denX pw).
+Proof.
+  intros Hl Ca. revert pw. induction Hl as [|c l Cc Hl IH]; intros pw Cp; cbn [scale_go map pcompscale_go]; [split; [constructor|reflexivity]|].
+  destruct (denX_xscale pw c Cp Cc) as [C1 E1]. destruct (denX_xmul pw alpha Cp Ca) as [C2 E2].
+  destruct (IH _ C2) as [I1 I2]. split; [constructor; assumption|]. rewrite I2, E1, E2. f_equal.
+  change f3mul with (kmul K3). unfold bden3. ring.
+Qed.
+Lemma scale_to_ext_spec l : okb l ->
+  okx (pdiv_scale_to_ext xfe_ops xb_act pdiv_offset l) /\
+  Dx (pdiv_scale_to_ext xfe_ops xb_act pdiv_offset l) = pcompscale K3 (Db3 l) xoff.
+Proof.
+  intros Hl. destruct (scale_go_ext l pdiv_offset xone Hl (proj1 offset_ok) (proj1 denX_xone)) as [S1 S2].
+  split; [exact S1|]. unfold pdiv_scale_to_ext, poly_scale_gen. cbn [fone fmul xfe_ops smul xb_act].
+  rewrite S2, (proj2 denX_xone). reflexivity.
+Qed.
+(* Vec::resize with ZERO *)
+Lemma resize_x l (n : nat) : okx l ->
+  okx (resize l (Z.of_nat n) xzero) /\ length (resize l (Z.of_nat n) xzero) = n /\
+  Dx (resize l (Z.of_nat n) xzero) = ptrunc K3 n (Dx l).
+Proof.
+  intros Hl. unfold resize, take, zrepeat, ptrunc, zlen. rewrite Nat2Z.id.
+  replace (Z.to_nat (Z.of_nat n - Z.of_nat (length l))) with (n - length l)%nat by lia. split; [|split].
+  - apply Forall_app. split; [apply Forall_firstn; exact Hl|]. apply Forall_forall. intros x Hx. apply repeat_spec in Hx. subst.
+    exact (proj1 denX_xzero).
+  - rewrite app_length, firstn_length, repeat_length. lia.
+  - rewrite map_app, firstn_map, map_repeat', (proj2 denX_xzero), map_length. reflexivity.
+Qed.
+(* the codeword of a polynomial on the coset xoff * <wr_x l> *)
+Lemma codeword_spec p l : okb p -> (l <= 31)%nat ->
+  exists v, ntt_x (resize (pdiv_scale_to_ext xfe_ops xb_act pdiv_offset p) (Z.of_nat (2 ^ l)) xzero) = Some v /\ okx v /\
+            length v = (2 ^ l)%nat /\ Dx v = dft K3 (wr_x l) (ptrunc K3 (2 ^ l) (pcompscale K3 (Db3 p) xoff)).
+Proof.
+  intros Hp Hl. destruct (scale_to_ext_spec p Hp) as [S1 S2].
+  destruct (resize_x _ (2 ^ l) S1) as [R1 [R2 R3]].
+  destruct (ntt_x_hyp l _ Hl R2 R1) as [v [V1 [V2 [V3 V4]]]].
+  exists v. split; [exact V1|]. split; [exact V2|]. split; [lia|]. rewrite V4, R3, S2. reflexivity.
+Qed.
+
+(* no zero among the divisor evaluations: batch inversion succeeds and inverts point-wise *)
+Lemma existsb_zero_false dv : existsb (fis_zero xfe_ops) dv = false -> Forall (fun x => x <> xzero) dv.
+Proof.
+  intros E. apply Forall_forall. intros x Hx Ex. subst x.
+  assert (T : existsb (fis_zero xfe_ops) dv = true) by (apply existsb_exists; exists xzero; split; [exact Hx|reflexivity]).
+  congruence.
+Qed.
+Lemma batch_inv_D dv : okx dv -> existsb (fis_zero xfe_ops) dv = false ->
+  exists inv, xbatch_inversion dv = Some inv /\ okx inv /\ Forall2 (fun d e => kmul K3 e d = k1 K3) (Dx dv) (Dx inv).
+Proof.
+  intros Hd Hz. destruct (xbatch_inversion_spec dv Hd (existsb_zero_false dv Hz)) as [inv [E F2]].
+  exists inv. split; [exact E|]. clear E Hz. induction F2 as [|x y dv inv [Cy [Hy _]] _ IH].
+  - split; constructor.
+  - destruct (IH (Forall_inv_tail Hd)) as [I1 I2]. split; [constructor; assumption|]. cbn [map]. constructor; [|exact I2].
+    destruct (denX_xmul y x Cy (Forall_inv Hd)) as [_ E]. rewrite Hy, (proj2 denX_xone) in E. symmetry. exact E.
+Qed.
+Lemma map2_xmul_D a b : okx a -> okx b -> okx (map2 xmul a b) /\ Dx (map2 xmul a b) = map2 (kmul K3) (Dx a) (Dx b).
+Proof.
+  intros Ha. revert b. induction Ha as [|x a Cx Ha IH]; intros [|y b] Hb; cbn [map2 map]; try (split; [constructor|reflexivity]).
+  destruct (IH b (Forall_inv_tail Hb)) as [I1 I2]. destruct (denX_xmul x y Cx (Forall_inv Hb)) as [C E].
+  split; [constructor; assumption|]. rewrite I2, E. reflexivity.
+Qed.
+
+(* unlift succeeds on, and only reads, the elements of the embedded base field *)
+Lemma xunlift_iota e k : canon3 e -> denX e = iota k -> exists c, xunlift e = Some c /\ canon c /\ bden c = k.
+Proof.
+  destruct e as [[e0 e1] e2]. intros (C0 & C1 & C2) E. unfold denX, iota in E. apply f3_proj in E. destruct E as [E0 [E1 E2]].
+  apply (bden_zero_iff e1 C1) in E1. apply (bden_zero_iff e2 C2) in E2. subst e1 e2.
+  exists e0. split; [reflexivity|]. split; assumption.
+Qed.
+Lemma map_opt_unlift l ks : okx l -> Dx l = map iota ks -> exists q, map_opt xunlift l = Some q /\ okb q /\ Db q = ks.
+Proof.
+  intros Hl. revert ks. induction Hl as [|e l Ce Hl IH]; intros [|k ks] E; try discriminate E.
+  - exists []. split; [reflexivity|]. split; [constructor|reflexivity].
+  - cbn [map] in E.
+    assert (E1 : denX e = iota k) by (change (hd (denX e) (denX e :: Dx l) = hd (denX e) (iota k :: map iota ks)); rewrite E; reflexivity).
+    assert (E2 : Dx l = map iota ks) by (change (tl (denX e :: Dx l) = tl (iota k :: map iota ks)); rewrite E; reflexivity).
+    destruct (xunlift_iota e k Ce E1) as [c [U1 [U2 U3]]]. destruct (IH ks E2) as [q [Q1 [Q2 Q3]]].
+    exists (c :: q). cbn [map_opt]. rewrite U1, Q1. split; [reflexivity|]. split; [constructor; assumption|]. cbn [map]. rewrite U3, Q3. reflexivity.
+Qed.
+Lemma ptrunc_map_iota n p : ptrunc K3 n (map iota p) = map iota (ptrunc fp_field n p).
+Proof. unfold ptrunc. rewrite map_app, firstn_map, map_repeat', map_length. reflexivity. Qed.
+
+(* ------------------------------------------------------------------ the zero-free NTT arm *)
+Lemma pow2_nat_Z l : (2 ^ Z.of_nat l)%Z = Z.of_nat (2 ^ l).
+Proof. rewrite Nat2Z.inj_pow. reflexivity. Qed.
+
+(* the transform length chosen by the code: a power of two 2^l >= deg + 1, l <= 31 when deg < 2^31 *)
+Lemma order_spec da : -1 <= da < 2 ^ 31 ->
+  exists l : nat, (l <= 31)%nat /\ next_pow2 (da + 1) = Z.of_nat (2 ^ l) /\ da < Z.of_nat (2 ^ l).
+Proof.
+  intros Hd. destruct (Z.eq_dec da (-1)) as [E|E].
+  - subst da. exists O. split; [lia|]. split; [reflexivity|]. cbn. lia.
+  - destruct (next_pow2_spec (da + 1) ltac:(lia)) as [l [N1 [N2 N3]]]. exists l.
+    split; [apply N3; change (Z.of_nat 31) with 31; lia|]. rewrite <- pow2_nat_Z. split; [exact N1|lia].
+Qed.
+
+Theorem ntt_arm_spec a1 d1 q0 : okb a1 -> okb d1 -> ~ pzero fp_field (Db d1) ->
+  peq fp_field (Db a1) (pmul fp_field q0 (Db d1)) -> pdeg fp_field (Db a1) < 2 ^ 31 ->
+  exists av dv, pdiv_clean_codewords bfe_ops xfe_ops xb_act pdiv_offset ntt_x a1 d1 = Some (av, dv) /\
+    (existsb (fis_zero xfe_ops) dv = false ->
+     exists inv qv oi q, xbatch_inversion dv = Some inv /\ intt_x (map2 xmul av inv) = Some qv /\
+                         xinverse pdiv_offset = Some oi /\ map_opt xunlift (poly_scale xfe_ops qv oi) = Some q /\
+                         okb q /\ peq fp_field (Db q) q0).
+Proof.
+  intros Ha Hd NZ E Hdeg.
+  pose proof (degree_pdeg bfe_ops fp_field canon bden bfe_field_ok a1 Ha) as Eda.
+  set (da := pdeg fp_field (Db a1)) in *.
+  destruct (order_spec da ltac:(pose proof (pdeg_ge fp_field (Db a1)); fold da in H; lia)) as [l [Hl [Eord Hfit]]].
+  set (n := (2 ^ l)%nat) in *.
+  destruct (codeword_spec a1 l Ha Hl) as [av [A1 [A2 [A3 A4]]]].
+  destruct (codeword_spec d1 l Hd Hl) as [dv [D1 [D2 [D3 D4]]]]. fold n in A1, A3, A4, D1, D3, D4.
+  exists av, dv. split.
+  { unfold pdiv_clean_codewords. cbn [fzero xfe_ops]. rewrite Eda, Eord, A1, D1. reflexivity. }
+  intros Hz.
+  set (x := xoff) in *. set (w := wr_x l) in *. set (Q := map iota q0).
+  set (PQ := ptrunc K3 n (pcompscale K3 Q x)). set (PD := ptrunc K3 n (pcompscale K3 (Db3 d1) x)) in *.
+  set (CA := pcompscale K3 (Db3 a1) x) in *.
+  (* degrees, in the base field *)
+  assert (F1 : forall i, (n <= i)%nat -> coeff fp_field (Db a1) i = k0 fp_field).
+  { intros i Hi. apply coeff_above_pdeg. fold da. lia. }
+  assert (F23 : (forall i, (n <= i)%nat -> coeff fp_field q0 i = k0 fp_field) /\
+                (pzero fp_field q0 \/ forall i, (n <= i)%nat -> coeff fp_field (Db d1) i = k0 fp_field)).
+  { destruct (Z.eq_dec da (-1)) as [Ez|Enz].
+    - assert (Zq : pzero fp_field q0).
+      { assert (Za : pzero fp_field (Db a1)) by (apply pdeg_neg_iff; exact Ez).
+        assert (Zp : pzero fp_field (pmul fp_field q0 (Db d1))) by (intros i; rewrite <- (peq_elim _ _ _ E i); apply Za).
+        destruct (pmul_integral fp_field _ _ Zp) as [Z1|Z1]; [exact Z1|contradiction]. }
+      split; [intros i _; apply Zq|left; exact Zq].
+    - assert (Nq : 0 <= pdeg fp_field q0).
+      { pose proof (pdeg_ge fp_field q0). destruct (Z.eq_dec (pdeg fp_field q0) (-1)) as [Eq|Eq]; [|lia]. exfalso. apply Enz.
+        apply pdeg_neg_iff. apply pdeg_neg_iff in Eq. intros i. rewrite (peq_elim _ _ _ E i). apply pmul_pzero_l. exact Eq. }
+      assert (Nd : 0 <= pdeg fp_field (Db d1)).
+      { pose proof (pdeg_ge fp_field (Db d1)). destruct (Z.eq_dec (pdeg fp_field (Db d1)) (-1)) as [Eq|Eq]; [|lia]. exfalso. apply NZ.
+        apply pdeg_neg_iff. exact Eq. }
+      pose proof (pdeg_pmul fp_field q0 (Db d1) Nq Nd) as Hs. rewrite <- (pdeg_peq fp_field _ _ E) in Hs. fold da in Hs.
+      split; [|right]; intros i Hi; apply coeff_above_pdeg; lia. }
+  destruct F23 as [F2 F3].
+  (* the dividend codeword is the codeword of the product of the two truncated factors, which fits *)
+  assert (EQD : peq K3 (pmul K3 Q (Db3 d1)) (Db3 a1)).
+  { rewrite !Db3_Db. unfold Q. rewrite <- pmul_map_iota. apply peq_map_iota. symmetry. exact E. }
+  assert (B : peq K3 (pmul K3 PQ PD) CA).
+  { destruct F3 as [Zq|F3].
+    - assert (ZQ : pzero K3 PQ) by (apply ptrunc_pzero, pcompscale_pzero, pzero_map_iota; exact Zq).
+      transitivity (@nil Fp3); [apply peq_nil_pzero, pmul_pzero_l; exact ZQ|]. symmetry. apply peq_nil_pzero.
+      unfold CA. apply pcompscale_pzero. intros i. rewrite <- (peq_elim _ _ _ EQD i). apply pmul_pzero_l, pzero_map_iota. exact Zq.
+    - assert (EPQ : peq K3 PQ (pcompscale K3 Q x)).
+      { apply ptrunc_peq_coeff. intros i Hi. rewrite coeff_pcompscale. unfold Q. rewrite coeff_map_iota, (F2 i Hi), iota_0. ring. }
+      assert (EPD : peq K3 PD (pcompscale K3 (Db3 d1) x)).
+      { apply ptrunc_peq_coeff. intros i Hi. rewrite coeff_pcompscale, Db3_Db, coeff_map_iota, (F3 i Hi), iota_0. ring. }
+      rewrite EPQ, EPD, <- pcompscale_pmul. unfold CA. apply pcompscale_peq. exact EQD. }
+  assert (Bfit : forall i, (n <= i)%nat -> coeff K3 (pmul K3 PQ PD) i = k0 K3).
+  { intros i Hi. rewrite (peq_elim _ _ _ B i). unfold CA. rewrite coeff_pcompscale, Db3_Db, coeff_map_iota, (F1 i Hi), iota_0. ring. }
+  rewrite <- (ptrunc_ext K3 n _ _ B) in A4.
+  (* point-wise division *)
+  destruct (batch_inv_D dv D2 Hz) as [inv [I1 [I2 I3]]]. rewrite D4 in I3. fold PD in I3.
+  destruct (map2_xmul_D av inv A2 I2) as [M1 M2].
+  rewrite A4, (hadamard_divide K3 w n PQ PD (Dx inv) (ptrunc_length K3 _ _) (ptrunc_length K3 _ _) Bfit I3) in M2.
+  assert (ML : length (map2 xmul av inv) = n).
+  { apply (f_equal (@length Fp3)) in M2. rewrite map_length, dft_length in M2. unfold PQ in M2. rewrite ptrunc_length in M2. exact M2. }
+  (* inverse transform *)
+  destruct (intt_x_hyp l _ Hl ML M1) as [qv [V1 [V2 [V3 V4]]]]. fold w in V4.
+  rewrite M2, (idft_dft K3 k3_two_nz l w PQ (ptrunc_length K3 _ _) (wr_x_half l Hl) (wr_x_nonzero l Hl)) in V4.
+  (* unscaling and unlift *)
+  destruct (fo_inv _ _ _ _ xfe_field_ok pdiv_offset (proj1 offset_ok) xoff_nonzero) as [oi [O1 [O2 O3]]].
+  cbn [finv xfe_ops] in O1. fold xoff in O3. fold x in O3.
+  pose proof (scale_ok xfe_ops K3 canon3 denX xfe_field_ok qv oi V2 O2) as S1.
+  pose proof (scale_D xfe_ops K3 canon3 denX xfe_field_ok qv oi V2 O2) as S2.
+  rewrite V4, O3 in S2. unfold PQ in S2. rewrite (unscale_ptrunc K3 n Q x xoff_nonzero) in S2. unfold Q in S2.
+  rewrite ptrunc_map_iota in S2.
+  destruct (map_opt_unlift _ _ S1 S2) as [q [U1 [U2 U3]]].
+  exists inv, qv, oi, q. split; [exact I1|]. split; [exact V1|]. split; [exact O1|]. split; [exact U1|]. split; [exact U2|].
+  rewrite U3. apply ptrunc_peq_coeff. exact F2.
+Qed.
+
+(* ------------------------------------------------------------------ all arms together *)
+Lemma remove_root0_shape {F} (o : fops F) fix2 (a d a1 d1 : list F) :
+  pdiv_remove_root0 o fix2 a d = Some (a1, d1) -> a1 = a \/ exists x0, a = x0 :: a1.
+Proof.
+  unfold pdiv_remove_root0. destruct d as [|c0 d']; [intros E; inversion E; left; reflexivity|].
+  destruct (fis_zero o c0); [|intros E; inversion E; left; reflexivity].
+  destruct a as [|x0 a'].
+  - destruct fix2; [intros E; inversion E; left; reflexivity|discriminate].
+  - destruct (fis_zero o x0); [intros E; inversion E; right; exists x0; reflexivity|discriminate].
+Qed.
+
+Theorem clean_divide_full cutoff dbg a d q0 : okb a -> okb d -> ~ pzero fp_field (Db d) ->
+  peq fp_field (Db a) (pmul fp_field q0 (Db d)) -> poly_degree bfe_ops a < 2 ^ 31 ->
+  exists q, pdiv_clean_divide cutoff dbg a d = Some q /\ okb q /\ peq fp_field (Db q) q0.
+Proof.
+  intros Ha Hd NZ E Hdeg.
+  change (pdiv_clean_divide cutoff dbg a d)
+    with (pdiv_clean_divide_gen bfe_ops xfe_ops xb_act xunlift pdiv_offset ntt_x intt_x xbatch_inversion true true cutoff dbg a d).
+  destruct (Z_lt_ge_dec (poly_degree bfe_ops d) cutoff) as [Hc|Hc].
+  { exact (clean_divide_long_arm_spec bfe_ops xfe_ops xb_act xunlift pdiv_offset ntt_x intt_x xbatch_inversion fp_field canon bden
+             bfe_field_ok true true cutoff dbg a d q0 Ha Hd NZ E Hc). }
+  destruct (remove_root0_total bfe_ops fp_field canon bden bfe_field_ok a d q0 Ha Hd E) as [a1 [d1 R]].
+  destruct (remove_root0_spec bfe_ops fp_field canon bden bfe_field_ok true a d q0 a1 d1 Ha Hd NZ E R) as [Ha1 [Hd1 [NZ1 E1]]].
+  assert (Hdeg1 : pdeg fp_field (Db a1) < 2 ^ 31).
+  { rewrite (degree_pdeg bfe_ops fp_field canon bden bfe_field_ok a Ha) in Hdeg.
+    destruct (remove_root0_shape bfe_ops true a d a1 d1 R) as [->|[x0 ->]]; [exact Hdeg|].
+    change (2 ^ 31) with (Z.of_nat (Z.to_nat (2 ^ 31))). apply pdeg_bound. intros i Hi.
+    change (coeff fp_field (Db a1) i) with (coeff fp_field (Db (x0 :: a1)) (S i)). apply coeff_above_pdeg. lia. }
+  destruct (ntt_arm_spec a1 d1 q0 Ha1 Hd1 NZ1 E1 Hdeg1) as [av [dv [C Hrest]]].
+  destruct (existsb (fis_zero xfe_ops) dv) eqn:Ez.
+  { exact (clean_divide_fallback_spec bfe_ops xfe_ops xb_act xunlift pdiv_offset ntt_x intt_x xbatch_inversion fp_field canon bden
+             bfe_field_ok true cutoff dbg a d q0 a1 d1 av dv Ha Hd NZ E ltac:(lia) R C Ez). }
+  destruct (Hrest eq_refl) as [inv [qv [oi [q [I1 [V1 [O1 [U1 [U2 U3]]]]]]]]].
+  exists q. split; [|split; [exact U2|exact U3]].
+  unfold pdiv_clean_divide_gen. replace (poly_degree bfe_ops d <? cutoff) with false by (symmetry; apply Z.ltb_ge; lia).
+  rewrite R, C, Ez. cbn [andb]. rewrite I1. cbn [fmul finv xfe_ops]. rewrite V1, O1. exact U1.
+Qed.
